@@ -36,7 +36,7 @@ ALL_SWITCHES = ["removalOverwrite", "staleRemovalOnDespawn", "noLostDespawnHidde
 MONITOR_PROPS = {
     "C01": ["C01"], "panic": ["C01", "C09"], "C02": ["C02"], "C02mono": ["C02"],
     "C03": ["C03"], "C03mono": ["C03"], "C08data": ["C08"], "C08query": ["C08"], "C11rest": ["C11"],
-    "C10atomic": ["C10"], "C10size": ["C10"], "C16": ["C16"],
+    "C10atomic": ["C10"], "C10size": ["C10"], "C16": ["C16"], "C01parent": ["C01", "C03"],
     "C04stamp": ["C04"], "C04delivery": ["C04"],
     "C05recipients": ["C05"], "C05delivery": ["C05"], "C05complete": ["C05"], "C05server": ["C05"],
     "C05serverComplete": ["C05"], "C07unauth": ["C07"],
@@ -156,12 +156,15 @@ def parse_prints(out):
     return res
 
 
-def validate_trace(sd, trace, wd, timeout=600):
+def validate_trace(sd, trace, wd, timeout=600, monitors_only=False):
     """Runs CoreTrace on one NDJSON file. Returns (diffs, viols, done)."""
     with open(os.path.join(sd, "CoreTrace.cfg"), "w") as f:
         f.write("SPECIFICATION Spec\nINVARIANT Done\nCHECK_DEADLOCK FALSE\n")
+    env = {"TRACE": trace}
+    if monitors_only:
+        env["MONITORS_ONLY"] = "1"
     r = run_tlc_in(sd, "CoreTrace", "CoreTrace.cfg", wd, workers=1, timeout=timeout, xmx="8g", xss="1g",
-                   env_extra={"TRACE": trace})
+                   env_extra=env)
     diffs, viols, done = [], [], None
     for tag, d in parse_prints(r["out"]):
         if tag == "DIFF":
@@ -282,7 +285,7 @@ class CoreCheck:
     def validate_profile(self, profile, runs, monitors_only=False, extra_monitors=(), extra_fields=()):
         trace = os.path.join(self.wd, f"{profile}.ndjson")
         lines, panics = simtrace(profile, runs, self.seed, trace)
-        diffs, viols, done = validate_trace(self.sd, trace, self.wd)
+        diffs, viols, done = validate_trace(self.sd, trace, self.wd, monitors_only=monitors_only)
         self.traces += runs
         self.trace_events += lines
         mine_v = [x for x in viols if self.pid in MONITOR_PROPS.get(x["prop"], []) or x["prop"] in extra_monitors]
@@ -310,6 +313,53 @@ class CoreCheck:
                 head = [json.loads(next(f)) for _ in range(12)]
             self.samples.append({"kind": "validated trace prefix (ev, args)", "profile": profile,
                                  "steps": [[h["ev"], h["args"]] for h in head if h["ev"] != "Init"]})
+        return trace
+
+    # ---- 3b. spec -> implementation: behaviours chosen by TLC are executed on the real apps
+    def replay_behaviours(self, name, consts, num, depth=60, timeout=600):
+        """TLC random walks (simulation mode) of MC_Core with the behaviour log on; every walk that reaches
+        the settle phase is executed step by step on the real apps and the recorded trace is validated."""
+        consts = dict(consts, Emit="TRUE")
+        cfg = write_cfg(self.sd, f"{name}.cfg", consts, ["EmitInv"], view=False)
+        r = run_tlc_in(self.sd, "MC_Core", cfg, self.wd, workers=1, timeout=timeout,
+                       simulate=f"num={num}", depth=depth, seed=self.seed)
+        behs = [b for tag, b in parse_prints(r["out"]) if tag == "REPLAY"]
+        if not behs:
+            raise L.ToolError(f"{name}: TLC simulation produced no settled behaviour")
+        bfile = os.path.join(self.wd, f"{name}.behaviours.ndjson")
+        with open(bfile, "w") as f:
+            for b in behs:
+                f.write(json.dumps(b) + "\n")
+        unq = lambda s: [x.strip().strip('"') for x in s.strip("{}").split(",") if x.strip()]
+        cfgj = {"ents": unq(consts["Ent"]), "clients": unq(consts["Client"]), "policy": consts["Policy"].strip('"'),
+                "track": consts["Track"] == "TRUE", "rel": False, "max_size": [1200] * len(unq(consts["Client"])),
+                "auth": "none", "timeout_ms": int(consts["Timeout"]), "events": False}
+        cfile = os.path.join(self.wd, f"{name}.cfg.json")
+        json.dump(cfgj, open(cfile, "w"))
+        trace = os.path.join(self.wd, f"{name}.replayed.ndjson")
+        out = L.run([L.harness_bin("replay"), "behaviours", cfile, bfile, trace], timeout=timeout).stdout
+        summary = json.loads(out.strip().splitlines()[-1])
+        diffs, viols, done = validate_trace(self.sd, trace, self.wd)
+        self.traces += summary["runs"]
+        self.trace_events += done["lines"]
+        mine_v = [x for x in viols if self.pid in MONITOR_PROPS.get(x["prop"], [])]
+        mine_d = [x for x in diffs if self.pid in props_of_diff(x) or x["kind"] == "enabled"]
+        self.profiles[name + " (TLC behaviours replayed)"] = {
+            "behaviours": summary["runs"], "events": done["lines"], "diffs": done["diffs"], "viols": done["viols"],
+            "not_enabled_in_real_apps": summary["not_enabled"], "attributed_to_this_property": len(mine_v) + len(mine_d)}
+        seen = set()
+        for x in mine_v + mine_d:
+            if x["run"] in seen:
+                continue
+            seen.add(x["run"])
+            rp = os.path.join(L.REPLAYS, f"{self.pid}-{name}-seed{self.seed}-run{x['run']}.ndjson")
+            os.makedirs(L.REPLAYS, exist_ok=True)
+            extract_run(trace, x["run"], rp)
+            what = (f"replayed TLC behaviour: monitor {x['prop']} false at step {x['i']}" if "prop" in x else
+                    f"replayed TLC behaviour: {diff_field(x)} differs at step {x['i']} ({x['ev']}): "
+                    f"pred={str(x.get('pred'))[:300]} obs={str(x.get('obs'))[:300]}")
+            self.v.violation(rp, what)
+        self.samples.append({"kind": "TLC-generated behaviour replayed on the real apps", "steps": behs[0][:14]})
         return trace
 
     def selftest(self, trace):
